@@ -16,6 +16,10 @@ type Session struct {
 	Features     stanza.StreamFeatures
 	TlsEnabled   bool
 	lastPacketId int
+	// smActive tells whether the current connection belongs to the stream-managed session
+	// (stream management enabled or the session resumed on it): only then are received
+	// stanzas counted for it.
+	smActive bool
 
 	// read / write
 	transport Transport
@@ -35,6 +39,9 @@ func NewSession(c *Client, state SMState) (*Session, error) {
 		s = c.Session
 		// TLS has to be negotiated again on the new connection.
 		s.TlsEnabled = false
+		// ... and so has stream management: a session bound on a server that does not offer it
+		// is not the one whose stanzas we count.
+		s.smActive = false
 		// We keep information about the previously set session, like the session ID, but we read server provided
 		// info again in case it changed between session break and resume, such as features.
 		s.init()
@@ -190,6 +197,7 @@ func (s *Session) resume(o *Config) bool {
 				s.SMState = SMState{}
 				return false
 			}
+			s.smActive = true
 			return true
 		case stanza.SMFailed:
 		default:
@@ -342,6 +350,7 @@ func (s *Session) EnableStreamManagement(o *Config) {
 			}
 			s.SMState = SMState{Id: p.Id, preferredReconAddr: p.Location}
 			s.SMState.UnAckQueue = q
+			s.smActive = true
 		case stanza.SMFailed:
 			// TODO: Store error in SMState, for later inspection
 			s.SMState = SMState{StreamErrorGroup: p.StreamErrorGroup}
